@@ -158,9 +158,20 @@ def _gen_case(r, cid, tier, known_bucket=False):
                     blocks.add(''.join(r.choice('ovg' if r.random() < 0.2
                                                 else 'ov') for _ in range(n)))
                 # the block actually present in the input is an attractive target
-                if r.random() < 0.5:
+                x_ = r.random()
+                if x_ < 0.45:
                     blocks.add(''.join(ir.index_space(s)[0] for s in
                                        c['up'] + c.get('lo', [])))
+                elif x_ < 0.75 and c.get('lo') is not None:
+                    # only the bra-ket transposed partner of the present block is
+                    # excluded (a rule set need not be closed under transposition)
+                    pres = ''.join(ir.index_space(s)[0] for s in
+                                   c['up'] + c['lo'])
+                    tb = ''.join(ir.index_space(s)[0] for s in
+                                 c['lo'] + c['up'])
+                    if tb != pres:
+                        blocks = {b_ for b_ in blocks if b_ != pres}
+                        blocks.add(tb)
                 rules.setdefault(c['name'], sorted(blocks))
         if not rules:
             rules = None
@@ -187,6 +198,28 @@ def gen_cases(tier, seed):
         c = _gen_case(r, f'C01-{tier[0]}{seed}-kf{k:03d}', tier,
                       known_bucket=True)
         cases.append(c)
+    # rule sets that are not closed under bra-ket transposition: only the block
+    # that is NOT present is excluded, the term must survive
+    for q, (up, lo, blk) in enumerate([(['a'], ['i'], 'ov'), (['i'], ['a'], 'vo'),
+                                       (['a', 'b'], ['i', 'j'], 'oovv')]):
+        if len(up) == 1:
+            ops = [['c', up[0]], ['a', lo[0]], ['c', lo[0] + '1'],
+                   ['a', up[0] + '1']]
+            coeffs = [{'t': 'anti', 'name': 'f', 'up': up, 'lo': lo, 'bk': 0},
+                      {'t': 'non', 'name': 'x',
+                       'up': [lo[0] + '1', up[0] + '1']}]
+        else:
+            ops = [['c', 'a'], ['c', 'b'], ['a', 'j'], ['a', 'i'],
+                   ['c', 'i1'], ['c', 'j1'], ['a', 'b1'], ['a', 'a1']]
+            coeffs = [{'t': 'anti', 'name': 'V', 'up': up, 'lo': lo, 'bk': 0},
+                      {'t': 'non', 'name': 'x',
+                       'up': ['i1', 'j1', 'a1', 'b1']}]
+        for flag in (True, False):
+            cases.append({'id': f'C01-{tier[0]}{seed}-rules-open-{q}{int(flag)}',
+                          'mode': 'rules', 'groups': [[False, ops]],
+                          'coeffs': coeffs, 'flag': flag,
+                          'rules': {coeffs[0]['name']: [blk]},
+                          'model': [2, 2], 'mseed': 999 + q})
     # fixed exhibit of the open finding F13: wicks(c_r a+_r a_q, deltas evaluated)
     cases.append({'id': f'C01-{tier[0]}{seed}-kf-exhibit', 'mode': 'einstein',
                   'groups': [[False, [['c', 'r'], ['a', 'q']]]],
